@@ -10,7 +10,8 @@ Record pstate := mkP {
   p_scc : Z; p_vcc : Z; p_exec : Z; p_m0 : Z; p_pc : Z;
   p_s : list (Z * Z); p_v : list (Z * Z * Z);
   p_vc : list (Z * list Z);                     (* VGPR columns: (register, its values in lanes 0..63) *)
-  p_mem : list (Z * list Z); p_lds : list (Z * list Z)   (* byte runs (start, bytes): memory touched by the run, the whole LDS for DS cases *)
+  p_seed : Z;                                   (* memory and LDS hold [dflt p_seed x] at address x unless listed *)
+  p_mem : list (Z * list Z); p_lds : list (Z * list Z)   (* byte runs (start, bytes) that differ from the default content *)
 }.
 
 Record case := mkCase {
@@ -30,11 +31,15 @@ Fixpoint lookupc (cs : list (Z * list Z)) (l r : Z) : option Z :=
   | [] => None
   | (k, vs) :: t => if k =? r then Some (nth (Z.to_nat l) vs 0) else lookupc t l r
   end.
-Fixpoint lookupr (rs : list (Z * list Z)) (x : Z) : Z :=
+Fixpoint lookupr (rs : list (Z * list Z)) (x : Z) : option Z :=
   match rs with
-  | [] => 0
-  | (b, vs) :: t => if (b <=? x) && (x <? b + Z.of_nat (length vs)) then nth (Z.to_nat (x - b)) vs 0 else lookupr t x
+  | [] => None
+  | (b, vs) :: t => if (b <=? x) && (x <? b + Z.of_nat (length vs)) then Some (nth (Z.to_nat (x - b)) vs 0) else lookupr t x
   end.
+(** default content of the harness's byte memory and LDS (same formula in harness/cmd/c03/mem.go) *)
+Definition dflt (s x : Z) : Z := ((x mod 251) * 167 + ((x / 256) mod 65521) * 59 + s) mod 256.
+Definition bytes_of (s : Z) (rs : list (Z * list Z)) (x : Z) : Z :=
+  match lookupr rs x with Some v => v | None => dflt s x end.
 (** all values of a run / column agree with [f] from index [b] on *)
 Fixpoint chk (eqv : Z -> Z -> bool) (f : Z -> Z) (b : Z) (vs : list Z) : bool :=
   match vs with [] => true | v :: t => eqv (f b) v && chk eqv f (b + 1) t end.
@@ -43,7 +48,7 @@ Definition to_state (p : pstate) : state :=
   mkState (lookup (p_s p))
           (fun l r => match lookupc (p_vc p) l r with Some v => v | None => lookup2 (p_v p) l r end)
           (p_exec p) (p_vcc p) (p_scc p) (p_m0 p) (p_pc p)
-          (lookupr (p_mem p)) (lookupr (p_lds p)).
+          (bytes_of (p_seed p) (p_mem p)) (bytes_of (p_seed p) (p_lds p)).
 
 (** instructions whose VGPR result is a binary32 value: NaN results are compared
     as a class (payloads are outside the model) *)
@@ -56,6 +61,30 @@ Definition float_dst (i : inst) : bool :=
   end.
 Definition veq (fl : bool) (a b : Z) : bool := (a =? b) || (fl && f32_isnan a && f32_isnan b).
 
+(** store instructions: the bytes the manual says are written (computed from the
+    pre-state) are compared too, so that a store the ALU dropped is seen *)
+Definition act_lanes (st : state) : list Z := filter (fun l => Z.testbit (exec st) l) lanes.
+Definition span (norm : Z -> Z) (a n : Z) : list Z := map (fun j => norm (a + Z.of_nat j)) (seq 0 (Z.to_nat n)).
+Definition mem_probes (a : arch) (st : state) (i : inst) : list Z :=
+  match i_fmt i, flat_store_row (i_op i) with
+  | F_FLAT, Some k =>
+      if flat_ok a i then flat_map (fun l => span (fun x => x mod W64) (flat_ea a st i l) (4 * k)) (act_lanes st) else []
+  | _, _ => []
+  end.
+Definition lds_probes (a : arch) (st : state) (i : inst) : list Z :=
+  match i_fmt i with
+  | F_DS =>
+      match ds_row a (i_op i) with
+      | Some (DsWrite k) => flat_map (fun l => span (fun x => x) (ds_ea st i l (ds_off0 i)) (4 * k)) (act_lanes st)
+      | Some (DsWrite2 k) =>
+          flat_map (fun l => span (fun x => x) (ds_ea st i l (ds_off0 i * (4 * k))) (4 * k) ++
+                             span (fun x => x) (ds_ea st i l (ds_off1 i * (4 * k))) (4 * k)) (act_lanes st)
+      | Some DsWriteB8 => map (fun l => ds_ea st i l (ds_off0 i)) (act_lanes st)
+      | _ => []
+      end
+  | _ => []
+  end.
+
 Definition agrees_f (fl : bool) (st : state) (p : pstate) : bool :=
   (scc st =? p_scc p) && (vcc st =? p_vcc p) && (exec st =? p_exec p) && (m0 st =? p_m0 p) &&
   (pc st =? p_pc p) &&
@@ -64,6 +93,13 @@ Definition agrees_f (fl : bool) (st : state) (p : pstate) : bool :=
   forallb (fun cv => chk (veq fl) (fun l => vgpr st l (fst cv)) 0 (snd cv)) (p_vc p) &&
   forallb (fun bv => chk Z.eqb (mem st) (fst bv) (snd bv)) (p_mem p) &&
   forallb (fun bv => chk Z.eqb (lds st) (fst bv) (snd bv)) (p_lds p).
+Definition probes_ok (st : state) (p : pstate) (mp lp : list Z) : bool :=
+  forallb (fun x => mem st x =? bytes_of (p_seed p) (p_mem p) x) mp &&
+  forallb (fun x => lds st x =? bytes_of (p_seed p) (p_lds p) x) lp.
+Definition post_ok (c : case) (st' : state) : bool :=
+  let st := to_state (c_pre c) in
+  agrees_f (float_dst (c_inst c)) st' (c_post c) &&
+  probes_ok st' (c_post c) (mem_probes (c_arch c) st (c_inst c)) (lds_probes (c_arch c) st (c_inst c)).
 Definition agrees (st : state) (p : pstate) : bool := agrees_f false st p.
 
 Definition is_vector (f : format) : bool :=
@@ -71,7 +107,7 @@ Definition is_vector (f : format) : bool :=
 Definition is_mem (f : format) : bool :=
   match f with F_SMEM | F_FLAT | F_DS => true | _ => false end.
 (** size of the LDS slice the harness hands to the ALU *)
-Definition LSZ : Z := 256.
+Definition LSZ : Z := 65536.
 Definition exec_impl (a : arch) (st : state) (i : inst) : option state :=
   if is_mem (i_fmt i) then exec_mem a LSZ st i else
   if is_vector (i_fmt i) then exec_vector_f a st i else exec_scalar a st i.
@@ -83,7 +119,7 @@ Definition exec_spec_all (a : arch) (st : state) (i : inst) : option state :=
 Definition check_impl (c : case) : Z :=
   match exec_impl (c_arch c) (to_state (c_pre c)) (c_inst c) with
   | None => if c_crash c then 0 else 1
-  | Some st' => if negb (c_crash c) && (is_mem (i_fmt (c_inst c)) || negb (c_eff c)) && agrees_f (float_dst (c_inst c)) st' (c_post c) then 0 else 1
+  | Some st' => if negb (c_crash c) && (is_mem (i_fmt (c_inst c)) || negb (c_eff c)) && post_ok c st' then 0 else 1
   end.
 
 (** 0 = the Go run is what the manual prescribes; 2 = it is not; 4 = the
@@ -91,7 +127,7 @@ Definition check_impl (c : case) : Z :=
 Definition check_spec (c : case) : Z :=
   match exec_spec_all (c_arch c) (to_state (c_pre c)) (c_inst c) with
   | None => 4
-  | Some st' => if negb (c_crash c) && (is_mem (i_fmt (c_inst c)) || negb (c_eff c)) && agrees_f (float_dst (c_inst c)) st' (c_post c) then 0 else 2
+  | Some st' => if negb (c_crash c) && (is_mem (i_fmt (c_inst c)) || negb (c_eff c)) && post_ok c st' then 0 else 2
   end.
 
 Fixpoint mism (n : Z) (l : list case) : list (Z * Z) :=
